@@ -311,8 +311,8 @@ def check_strings(rep, model):
         rep.check(not bad, 'R10.4.utf8', '{}: string emits the UTF-8 encoding of its text for every character class'.format(fname),
                   lambda bad=bad, ops=ops, node=node, fname=fname: Finding('R10.4.utf8', fname, node, 'string data is emitted as value{}: for {} it is not the UTF-8 encoding of the text ({!r} -> {}, expected {!r})'.format(
                       CC.describe(ops), bad[0][0], bad[0][1], bad[0][3], bad[0][2]), line=getattr(node, 'lineno', None)))
-        if CC.well_typed(size_ops, 'str') != 'bytes':
-            raise AnalysisError('String.size(): {} does not turn text into bytes'.format(CC.describe(size_ops)))
+        if CC.well_typed(size_ops, 'str') is None:
+            raise AnalysisError('String.size(): {} is not applicable to text'.format(CC.describe(size_ops)))
         mism = size_mismatch(size_ops, ops) if not bad else None
         rep.check(not mism, 'R10.4.utf8', 'String.size() measures the bytes that {} emits'.format(fname),
                   lambda mism=mism, ops=ops: Finding('R10.4.utf8', 'String.size', msize, 'String.size() measures value{} but value{} is emitted: the sizes differ for {}'.format(
@@ -405,8 +405,9 @@ def check_include_bytes(rep, model):
         o = opens[0]
         kw = dict(o[3])
         mode = o[2][1] if len(o[2]) > 1 else kw.get('mode', C('r'))
+        onode = next((e[2] for e in p.events if e[0] == 'with' and strip_res(e[1]) == o), node)
         rep.check(is_const(mode) and isinstance(mode[1], str) and 'b' in mode[1] and 'r' in mode[1] and '+' not in mode[1], 'R10.5.binary', '{}: include_bytes reads in binary mode'.format(fname),
-                  lambda mode=mode, node=node, fname=fname: Finding('R10.5.binary', fname, node, 'the file is opened with mode {}: content is decoded / newline-translated'.format(show(mode)), line=getattr(node, 'lineno', None)))
+                  lambda mode=mode, node=onode, fname=fname: Finding('R10.5.binary', fname, node, 'the file is opened with mode {}: content is decoded / newline-translated'.format(show(mode)), line=getattr(node, 'lineno', None)))
         want = {('call', 'len', (data,), ()), ('attr', x, size_attr)}
         guarded = False
         for ev in p.events:
